@@ -21,6 +21,11 @@ ParseVerdict(r) ==
     ELSE IF ~Judged(r.in.bytes) THEN "ok"
     ELSE LET d == FromBytes(r.in.bytes) IN
          IF r.out.d = DIJson(d) /\ r.out.out = AsBytes(d)
+            \* a lookup finds an entry exactly under the name it is recorded under, in its own table
+            /\ ("probes" \in DOMAIN r.in =>
+                  /\ "hits" \in DOMAIN r.out
+                  /\ r.out.hits = [i \in 1..Len(r.in.probes) |-> <<TF(IndexOf(d.dist, r.in.probes[i]) # 0),
+                                                                   TF(IndexOf(d.patch, r.in.probes[i]) # 0)>>])
             \* canonical text is reproduced byte for byte
             /\ (AsBytes(d) = r.in.bytes => r.out.out = r.in.bytes)
          THEN "ok" ELSE "bad"
@@ -72,6 +77,19 @@ VerifyVerdict(r) ==
                               IF s = 0 THEN <<"MissingChecksum", a>>
                               ELSE IF e.sums[s][2] = Actual(a) THEN <<"Ok", a>>
                               ELSE <<"Checksum", e.name, a, e.sums[s][2], Actual(a)>>
+             \* after the file was rewritten in place (same length and modification time, byte k changed)
+             k == IF "rewrite" \in DOMAIN r.in THEN r.in.rewrite ELSE 0
+             c2 == [r.in.content EXCEPT ![k] = (@ + 1) % 256]
+             Actual2(a) == IF ModeOf(e) = "patch" THEN o.again.actual_patch[a] ELSE o.again.actual_plain[a]
+             SumOutcome2(a) == LET s == FirstSum(e, a) IN
+                               IF s = 0 THEN <<"MissingChecksum", a>>
+                               ELSE IF e.sums[s][2] = Actual2(a) THEN <<"Ok", a>>
+                               ELSE <<"Checksum", e.name, a, e.sums[s][2], Actual2(a)>>
+             AgainOK == (k >= 1 /\ k <= Len(r.in.content)) =>
+                          /\ "again" \in DOMAIN o /\ DOMAIN o.again = {"claim_patch", "sums", "actual_plain", "actual_patch"}
+                          /\ o.again.claim_patch = PatchFilter(c2)
+                          /\ IF i = 0 THEN \A a \in Algs : o.again.sums[a] = <<"NotFound">>
+                             ELSE \A a \in Algs : o.again.sums[a] = SumOutcome2(a)
              SizeOutcome == LET v == VerifySize(e, flen) IN
                             IF v[1] = "Ok" THEN <<"Ok", U64Print(e.size[1])>>
                             ELSE IF v[1] = "Size" THEN <<"Size", e.name, U64Print(v[2]), U64Print(v[3])>>
@@ -81,6 +99,7 @@ VerifyVerdict(r) ==
                /\ FindEntry(d, cs) = i                               \* machine = shortest recorded trailing sub-path
                /\ o.last_is_patch = TF(IsPatch(cs[Len(cs)]))
                /\ o.calc_ok = "T"
+               /\ AgainOK
                /\ IF i = 0
                   THEN /\ o.found = [err |-> <<"NotFound">>] /\ o.size = <<"NotFound">>
                        /\ \A a \in Algs : o.sums[a] = <<"NotFound">>
